@@ -197,6 +197,8 @@ def judge_shapes(run, cases, rows, counts=None):
                         "model and implementation disagree on %s shape %s (and the specification still holds on it): obs=%s"
                         % (fam, c["shape"], c["obs"]), theorem="correspondence Shapes.Model ~ real code", found_input=False)
     run.cov.setdefault("by_class", {}).update(tags)
+    run.cov["stage_observations_compared"] = run.cov.get("stage_observations_compared", 0) + sum(
+        len(c.get("obs", "")) * max(1, c.get("others", 1)) for c in cases if not c.get("error"))
     if counts is not None:
         ex = {}
         for fam in FAMS:
